@@ -5,8 +5,15 @@
   peewee.py     get_events           the trimming loop body                    -> gen_pw_clip
   sqlite.py     get_events / get_eventcount   the SQL text and the parameter expressions, compared (whitespace-
                 normalised) with the statements whose meaning Model/SqliteStore.v + Model/Window.v define -> gen_sqlite_*_ok
-Vocabulary: instants are Z microseconds (UTC; utcoffset 0, see Proofs/WindowRound.round_tz_whole_ms), `x.microsecond`
-is `us_field x 0`, `x.replace(microsecond=m)` is `replace_us x 0 m`, `int(a / 1000)` is `a / 1000` (justified for
+Vocabulary: instants are Z microseconds.  In Bucket.get a window edge is an AWARE datetime, the pair (x, x_off) of its
+UTC instant and its utcoffset (naive datetimes are outside the model): `x.microsecond` is `us_field x x_off`,
+`x.replace(microsecond=m)` is `replace_us x x_off m`, and the statement
+    if x is not None and x.utcoffset() is not None:      (or: x.tzinfo is not None)
+        x = x.astimezone(timezone.utc)
+re-binds the pair to `astimezone_utc x x_off` = (x, 0).  Without that statement (the code before 49e3288) the generated
+rounding keeps the caller's offset and Bridge/BridgeWindow.v no longer proves: rounding on the local reading is the
+same function of the instant only for whole-millisecond offsets, and the instants-only vocabulary cannot see `fold`
+being dropped by `+ timedelta` (finding C03:window-end-in-fold).  `int(a / 1000)` is `a / 1000` (justified for
 microsecond fields by the finite theorem PyFloatFinite.int_div_1000_exact, and used only on them), `+ timedelta(seconds=s)`
 is `+ s * 1000000`, `e.timestamp = t` is `set_ts e (floor_ms t)` (Event's setter floors to the millisecond), an optional
 datetime tested for truth is an `option Z`.  Fail-closed: anything else raises Fail."""
@@ -47,8 +54,8 @@ def _guard(f):
 # Bucket.get rounding
 
 
-def rexpr(e, env, dtname):
-    """integer expressions of the rounding code"""
+def rexpr(e, env, dtname, off="0"):
+    """integer expressions of the rounding code (`off`: the Coq term for the utcoffset of the reading of `dtname`)"""
     if isinstance(e, ast.Constant) and type(e.value) is int:
         return str(e.value)
     if isinstance(e, ast.Name):
@@ -56,36 +63,37 @@ def rexpr(e, env, dtname):
             return env[e.id]
         raise Fail(f"unknown name {e.id}")
     if isinstance(e, ast.Attribute) and e.attr == "microsecond" and isinstance(e.value, ast.Name) and e.value.id == dtname:
-        return f"(us_field {dtname} 0)"
+        return f"(us_field {dtname} {off})"
     if isinstance(e, ast.Call) and isinstance(e.func, ast.Name) and e.func.id == "int" and len(e.args) == 1 \
             and not e.keywords and isinstance(e.args[0], ast.BinOp) and isinstance(e.args[0].op, ast.Div):
         d = e.args[0]
         if not (isinstance(d.right, ast.Constant) and d.right.value == 1000 and type(d.right.value) is int):
             raise Fail("int(x / c) with c != 1000")
-        return f"({rexpr(d.left, env, dtname)} / 1000)"
+        return f"({rexpr(d.left, env, dtname, off)} / 1000)"
     if isinstance(e, ast.BinOp) and isinstance(e.op, (ast.Add, ast.Mult, ast.Mod)):
         op = {ast.Add: "+", ast.Mult: "*", ast.Mod: "mod"}[type(e.op)]
-        return f"({rexpr(e.left, env, dtname)} {op} {rexpr(e.right, env, dtname)})"
+        return f"({rexpr(e.left, env, dtname, off)} {op} {rexpr(e.right, env, dtname, off)})"
     raise Fail("unsupported rounding expression " + ast.dump(e)[:80])
 
 
-def dtexpr(e, env, dtname):
+def dtexpr(e, env, dtname, off="0"):
     """datetime-valued expressions: dt.replace(microsecond=E) [+ timedelta(seconds=E)]"""
     if isinstance(e, ast.BinOp) and isinstance(e.op, ast.Add):
         r = e.right
         if isinstance(r, ast.Call) and isinstance(r.func, ast.Name) and r.func.id == "timedelta" and not r.args \
                 and len(r.keywords) == 1 and r.keywords[0].arg == "seconds":
-            return f"({dtexpr(e.left, env, dtname)} + {rexpr(r.keywords[0].value, env, dtname)} * 1000000)"
+            return f"({dtexpr(e.left, env, dtname, off)} + {rexpr(r.keywords[0].value, env, dtname, off)} * 1000000)"
         raise Fail("unsupported datetime addition")
     if isinstance(e, ast.Call) and isinstance(e.func, ast.Attribute) and e.func.attr == "replace" \
             and isinstance(e.func.value, ast.Name) and e.func.value.id == dtname and not e.args \
             and len(e.keywords) == 1 and e.keywords[0].arg == "microsecond":
-        return f"(replace_us {dtname} 0 {rexpr(e.keywords[0].value, env, dtname)})"
+        return f"(replace_us {dtname} {off} {rexpr(e.keywords[0].value, env, dtname, off)})"
     raise Fail("unsupported datetime expression " + ast.dump(e)[:80])
 
 
-def round_block(block, dtname):
-    """assignments to locals, the last one re-binding the datetime itself"""
+def round_block(block, dtname, off="0"):
+    """assignments to locals, the last one re-binding the datetime itself; `off` is the Coq term for the utcoffset of
+    the reading the fields are taken from ("0": a datetime known to be in UTC)"""
     env = {}
     out = ""
     for i, s in enumerate(block):
@@ -95,10 +103,65 @@ def round_block(block, dtname):
         if t == dtname:
             if i != len(block) - 1:
                 raise Fail("the datetime is re-bound before the end of the block")
-            return out + dtexpr(s.value, env, dtname)
-        out += f"let {t} := {rexpr(s.value, env, dtname)} in\n  "
+            return out + dtexpr(s.value, env, dtname, off)
+        out += f"let {t} := {rexpr(s.value, env, dtname, off)} in\n  "
         env[t] = t
     raise Fail("rounding block does not re-bind the datetime")
+
+
+def utc_normalisation(s):
+    """`if X is not None and X.utcoffset() is not None: X = X.astimezone(timezone.utc)` (or `X.tzinfo is not None` as the
+    second test) -> "X"; any other statement -> None.  On an aware datetime (the model's domain) the test is `X is not
+    None`; the assignment keeps the instant and makes the utcoffset 0."""
+    if not (isinstance(s, ast.If) and not s.orelse and len(s.body) == 1):
+        return None
+    t = s.test
+    if not (isinstance(t, ast.BoolOp) and isinstance(t.op, ast.And) and len(t.values) == 2):
+        return None
+
+    def is_not_none(c):
+        if isinstance(c, ast.Compare) and len(c.ops) == 1 and isinstance(c.ops[0], ast.IsNot) \
+                and isinstance(c.comparators[0], ast.Constant) and c.comparators[0].value is None:
+            return c.left
+        return None
+    a, b = is_not_none(t.values[0]), is_not_none(t.values[1])
+    if not isinstance(a, ast.Name) or b is None:
+        return None
+    nm = a.id
+    aware = (isinstance(b, ast.Attribute) and b.attr == "tzinfo" and isinstance(b.value, ast.Name) and b.value.id == nm) or \
+            (isinstance(b, ast.Call) and not b.args and not b.keywords and isinstance(b.func, ast.Attribute)
+             and b.func.attr == "utcoffset" and isinstance(b.func.value, ast.Name) and b.func.value.id == nm)
+    if not aware:
+        return None
+    st = s.body[0]
+    if not (isinstance(st, ast.Assign) and len(st.targets) == 1 and isinstance(st.targets[0], ast.Name)
+            and st.targets[0].id == nm and ast.unparse(st.value) == f"{nm}.astimezone(timezone.utc)"):
+        return None
+    return nm
+
+
+def check_timezone_utc(repo):
+    """`timezone` in datastore.py is datetime.timezone (imported at module level, never re-bound)"""
+    tree = ast.parse(open(os.path.join(repo, "aw_datastore/datastore.py")).read())
+    ok = False
+    for n in ast.walk(tree):
+        if isinstance(n, ast.ImportFrom):
+            for a in n.names:
+                if (a.asname or a.name) == "timezone":
+                    if n.module != "datetime" or a.name != "timezone" or n.level != 0 or n not in tree.body:
+                        raise Fail("`timezone` is not datetime.timezone imported at module level")
+                    ok = True
+        elif isinstance(n, ast.Import):
+            if any((a.asname or a.name.split(".")[0]) == "timezone" for a in n.names):
+                raise Fail("`timezone` bound by an import statement")
+        elif isinstance(n, ast.Name) and n.id == "timezone" and not isinstance(n.ctx, ast.Load):
+            raise Fail("`timezone` is re-bound in datastore.py")
+        elif isinstance(n, (ast.FunctionDef, ast.ClassDef)) and n.name == "timezone":
+            raise Fail("`timezone` is re-defined in datastore.py")
+        elif isinstance(n, ast.arg) and n.arg == "timezone":
+            raise Fail("`timezone` is a parameter name in datastore.py")
+    if not ok:
+        raise Fail("datastore.py does not import timezone from datetime")
 
 
 @_guard
@@ -107,13 +170,27 @@ def tr_bucket_get(repo):
     if [a.arg for a in fn.args.args] != ["self", "limit", "starttime", "endtime"]:
         raise Fail("signature of Bucket.get changed")
     body = _body(fn)
+    # optional leading statements: the conversion of an aware edge to UTC, at most once per edge
+    normalised = []
+    while body and utc_normalisation(body[0]) is not None:
+        nm = utc_normalisation(body[0])
+        if nm not in ("starttime", "endtime") or nm in normalised:
+            raise Fail(f"unexpected UTC conversion of {nm}")
+        normalised.append(nm)
+        body = body[1:]
+    if normalised:
+        check_timezone_utc(repo)
     if len(body) != 3:
-        raise Fail("Bucket.get is no longer `if starttime / if endtime / return`")
+        raise Fail("Bucket.get is no longer `[UTC conversions] / if starttime / if endtime / return`")
     outs = []
     for s, nm in zip(body[:2], ("starttime", "endtime")):
         if not (isinstance(s, ast.If) and isinstance(s.test, ast.Name) and s.test.id == nm and not s.orelse):
             raise Fail(f"expected `if {nm}:`")
-        outs.append(round_block(s.body, nm))
+        txt = round_block(s.body, nm, f"{nm}_off")
+        if nm in normalised:
+            txt = (f"let {nm}_utc := astimezone_utc {nm} {nm}_off in\n  let {nm} := fst {nm}_utc in\n  "
+                   f"let {nm}_off := snd {nm}_utc in\n  {txt}")
+        outs.append(txt)
     r = body[2]
     ok = (isinstance(r, ast.Return) and isinstance(r.value, ast.Call) and isinstance(r.value.func, ast.Attribute)
           and r.value.func.attr == "get_events" and not r.value.keywords and len(r.value.args) == 4
@@ -121,8 +198,9 @@ def tr_bucket_get(repo):
     if not ok:
         raise Fail("Bucket.get does not end with storage.get_events(bucket_id, limit, starttime, endtime)")
     return ("From AwVerif Require Import Model.StoreBase Model.Window.\n\n"
-            f"Definition gen_round_start (starttime : Z) : Z :=\n  {outs[0]}.\n\n"
-            f"Definition gen_round_end (endtime : Z) : Z :=\n  {outs[1]}.\n")
+            "(* an aware window edge is (UTC instant, utcoffset) *)\n"
+            f"Definition gen_round_start (starttime starttime_off : Z) : Z :=\n  {outs[0]}.\n\n"
+            f"Definition gen_round_end (endtime endtime_off : Z) : Z :=\n  {outs[1]}.\n")
 
 
 @_guard
